@@ -34,7 +34,7 @@ ASSUMPTIONS = [
     "stubs containing ff ff ff before their end are outside 'end-of-stub marker' and not generated",
 ]
 BOUNDS = {
-    "quick": {"plain_lens": list(range(0, 14)) + [4099], "unmerged_depth": 3, "stub_len": 4, "neg_stub_len": 2, "buckets": 4},
+    "quick": {"plain_lens": list(range(0, 18)) + [4099], "unmerged_depth": 3, "stub_len": 5, "neg_stub_len": 2, "buckets": 8},
     "thorough": {"plain_lens": list(range(0, 26)) + [4099, 8195], "unmerged_depth": 4, "stub_len": 6, "neg_stub_len": 4, "buckets": 16},
 }
 NONCES = (b"\x00\x00\x00\x00", b"\xff\xff\xff\xff", b"\x12\x34\x56\x78")
